@@ -1110,6 +1110,77 @@ Proof.
   eexists. split; vm_compute; reflexivity.
 Qed.
 
+(* symbolic execution for termination, loops with the trivial invariant *)
+Ltac sxt_loop :=
+  lazymatch goal with
+  | |- OutT _ ?I (seqo (unloop (fold_left _ _ _)) _) =>
+      apply (OutT_seqo _ I I); [apply OutT_unloop; apply OutT_fold; [exact Logic.I|let s := fresh "s" in let x := fresh "x" in let Hx := fresh "Hx" in
+                                 intros s x _ Hx; destruct_state; cbv beta iota zeta]|intros; exact Logic.I|let s := fresh "s" in intros s _; destruct_state; cbv beta iota zeta]
+  | |- OutT _ ?I (unloop (fold_left _ _ _)) =>
+      apply OutT_unloop; apply OutT_fold; [exact Logic.I|let s := fresh "s" in let x := fresh "x" in let Hx := fresh "Hx" in intros s x _ Hx; destruct_state; cbv beta iota zeta]
+  end.
+Ltac sxta := cbv beta iota zeta; repeat first [sxt_step | sxt_loop].
+
+Lemma left_factor_spec k G r : py_S_left_factor_from_sequence k G = FRet r -> (length r <= Z.to_nat k)%nat.
+Proof.
+  unfold py_S_left_factor_from_sequence. intros H.
+  refine (OutP_finish (fun r => (length r <= Z.to_nat k)%nat) (fun _ => True) _ r _ H). clear H.
+  sx; try exact I.
+  - unfold get_single. rewrite !app_length. cbn [length]. unfold identity. rewrite !repeat_length. lia.
+  - unfold py_S_left_part_val. rewrite firstn_length. lia.
+Qed.
+Lemma left_factor_no_fuel k G : py_S_left_factor_from_sequence k G <> FOutOfFuel.
+Proof.
+  unfold py_S_left_factor_from_sequence. apply (OutT_finish (fun _ => True) (fun _ => True)). sxta; try exact I.
+  cbn [OutT]. match goal with H : py_S_nested_commutator_result ?G = FOutOfFuel |- _ => exact (ncr_no_fuel G H) end.
+Qed.
+Ltac no_fuel_leaf :=
+  cbn [OutT]; try exact I;
+  match goal with
+  | H : py_S_nested_commutator_result ?G = FOutOfFuel |- _ => exact (ncr_no_fuel G H)
+  | H : py_S_sequence_to_paulie_orientation ?G = FOutOfFuel |- _ => rewrite gen_s_orient in H; discriminate H
+  | H : py_S_left_factor_from_sequence ?k ?G = FOutOfFuel |- _ => exact (left_factor_no_fuel k G H)
+  end.
+Lemma case3_no_fuel k G1 G2 Aext W orc : py_S_case3_best_reordering k G1 G2 Aext W orc <> FOutOfFuel.
+Proof. unfold py_S_case3_best_reordering. apply (OutT_finish (fun _ => True) (fun _ => True)). sxta; no_fuel_leaf. Qed.
+Lemma bfs_no_fuel k N W dc nc : py_S_bfs_case3 k N W dc nc <> FOutOfFuel.
+Proof.
+  unfold py_S_bfs_case3. apply (OutT_finish (fun _ => True) (fun _ => True)). sxta; try no_fuel_leaf.
+  all: cbn [OutT]; match goal with H : py_S_ad_apply ?a ?c = FOutOfFuel |- _ => revert H end;
+    unfold py_S_ad_apply; cbn [opt_is_some negb seqo unopt finish];
+    repeat match goal with |- context [if ?c then _ else _] => destruct c end; cbn [finish]; discriminate.
+Qed.
+
+Lemma pow4_mono a b : (a <= b)%nat -> (Nat.pow 4 a <= Nat.pow 4 b)%nat.
+Proof. intros H. apply Nat.pow_le_mono_r; lia. Qed.
+
+(* C06, "compilation terminates", for EVERY target: every loop of the translated code (compile_target, compile, _case3_best_reordering,
+   _bfs_case3, _nested_commutator_result and the two while loops of left_map_over_a) ends within the fuel 2 * 4^k + 1, whatever
+   subsystem_compiler, _candidate_decompositions and the interleaving generators return or raise.  (Those four are not translated: that THEY
+   return is not part of this statement.) *)
+Theorem gen_s_compile_terminates fuel k nr fd fn N V W orc : (2 * Nat.pow 4 (Z.to_nat k) < fuel)%nat ->
+  py_S_compile fuel k nr fd fn N V W orc <> FOutOfFuel.
+Proof.
+  intros Hf. unfold py_S_compile. apply (OutT_finish (fun _ => True) (fun _ => True)).
+  sxta.
+  all: try no_fuel_leaf.
+  all: cbn [OutT].
+  all: try match goal with H : py_S_case3_best_reordering ?k ?a ?b ?c ?d ?e = FOutOfFuel |- _ => exact (case3_no_fuel k a b c d e H) end.
+  all: try match goal with H : py_S_bfs_case3 ?k ?a ?b ?c ?d = FOutOfFuel |- _ => exact (bfs_no_fuel k a b c d H) end.
+  all: match goal with H : py_S_left_map_over_a ?f ?Vf ?Vt ?A = FOutOfFuel |- _ =>
+         apply (gen_s_left_map_terminates f (length Vf) Vf Vt A eq_refl) in H; [exact H|] end.
+  all: try match goal with Hx : In ?x (left_a_minimal _), Hf' : (_ < ?f)%nat |- (2 * Nat.pow 4 (length ?x) < ?f)%nat => rewrite (UniversalT.left_lengths _ _ Hx); exact Hf' end.
+  all: match goal with H : py_S_left_factor_from_sequence _ _ = FRet ?r |- (2 * Nat.pow 4 (length ?r) < _)%nat =>
+         pose proof (pow4_mono _ _ (left_factor_spec _ _ _ H)); lia end.
+Qed.
+
+Theorem gen_s_compile_target_terminates fuel target k orc : (2 * Nat.pow 4 (Z.to_nat k) < fuel)%nat -> py_S_compile_target fuel target k orc <> FOutOfFuel.
+Proof.
+  intros Hf. unfold py_S_compile_target. apply (OutT_finish (fun _ => True) (fun _ => True)).
+  sxta; try exact I. cbn [OutT].
+  match goal with H : py_S_compile _ _ _ _ _ _ _ _ _ = FOutOfFuel |- _ => exact (gen_s_compile_terminates _ _ _ _ _ _ _ _ _ Hf H) end.
+Qed.
+
 Print Assumptions gen_s_ncr.
 Print Assumptions gen_s_orient.
 Print Assumptions checked_evaluates.
@@ -1128,5 +1199,7 @@ Print Assumptions gen_s_left_only_terminates.
 Print Assumptions left_map_spec.
 Print Assumptions gen_s_left_only_total.
 Print Assumptions gen_left_only_total_runs.
+Print Assumptions gen_s_compile_terminates.
+Print Assumptions gen_s_compile_target_terminates.
 Print Assumptions gen_search_runs.
 Print Assumptions gen_bfs_runs.
